@@ -48,6 +48,7 @@ def asm (prof : Profile) : Assembler := fun lb tb pb read =>
     | .panic => .panic
     | .err _ => .trailerErr
     | .ok t =>
+      if t.blockId ≠ l.blockId then .idMismatch else
       match Stream.build prof l t pb read with
       | .panic => .panic
       | .err _ => .buildErr
@@ -62,7 +63,7 @@ structure Acc where
   s : State
   tok : List (Nat × Nat)
   ptr : List (Nat × Nat)
-  path : List UInt64
+  path : List (UInt64 × UInt64)
 
 def pcTag : PC → Nat
   | .top => 1 | .obtain => 2 | .submit k => 100 + k | .poll => 3 | .parse => 4
@@ -70,7 +71,7 @@ def pcTag : PC → Nat
   | .drop c => 200 + c | .exiting => 10 | .exited => 11 | .dead => 12
 
 def ctlTag : Ctl → Nat
-  | .running => 0 | .stopping => 1 | .stopOk => 2 | .stopErr => 3
+  | .running => 0 | .stopping => 1 | .stopOk => 2 | .stopErr => 3 | .calling => 4
 
 /-- Abstract (control) state used for the coverage figures. -/
 def absHash (s : State) : UInt64 :=
@@ -83,7 +84,7 @@ def stepTag : Step → Nat
   | .pollOk => 7 | .pollOverflow => 8 | .pollFault => 9 | .pollPending => 10 | .parse => 11
   | .trySend => 12 | .cancelNext => 13 | .reapOne => 14 | .iterEnd => 15 | .exit => 16
   | .rxRecv => 17 | .rxNone => 18 | .rxSendBack _ => 19 | .rxDrop _ => 20 | .rxClose => 21
-  | .stopCall => 22 | .stopDisc => 23
+  | .stopCall => 22 | .stopDisc => 23 | .stopBlock => 24
 
 structure Env where
   P : Params
@@ -92,11 +93,11 @@ structure Env where
 
 def Env.step (E : Env) (a : Acc) (st : Step) : Option Acc :=
   match StreamLoop.step E.P E.A E.script a.s st with
-  | some s' => some { a with s := s', path := fnvNat (fnvNat (absHash a.s) (stepTag st)) (absHash s').toNat :: a.path }
+  | some s' => some { a with s := s', path := (fnvNat (fnvNat (absHash a.s) (stepTag st)) (absHash s').toNat, absHash s') :: a.path }
   | none => none
 
 def tauSteps : List Step :=
-  [.checkCancel, .obtainReuse, .obtainBack, .obtainAlloc, .parse, .trySend, .iterEnd, .exit, .stopDisc]
+  [.checkCancel, .obtainReuse, .obtainBack, .obtainAlloc, .parse, .trySend, .iterEnd, .exit, .stopBlock, .stopDisc]
 
 def sameAcc (a b : Acc) : Bool := a.s == b.s && a.tok == b.tok && a.ptr == b.ptr
 
@@ -201,10 +202,10 @@ def applyEvent (E : Env) (ev : String) (a : Acc) : Option Acc :=
         let okData : Bool := m.valid == valid && m.info == info &&
           decide (valid ≤ m.buf.bytes.length) && (fnvBytes fnvInit (m.buf.bytes.take valid)).toNat == dg
         let okPtr : Bool := match lookup m.buf.id a.ptr with
-          | some p => p == ptr
+          | some p => p == ptr || ptr == 0 || p == 0
           | none => true
         -- no other live buffer of the model sits at this address
-        let alias : Bool := (liveIds s).any fun j => j != m.buf.id && lookup j a.ptr == some ptr
+        let alias : Bool := ptr != 0 && (liveIds s).any fun j => j != m.buf.id && lookup j a.ptr == some ptr
         if okData && okPtr && !alias then
           match E.step a .rxRecv with
           | some r => some { r with tok := (tok, m.buf.id) :: a.tok,
@@ -249,7 +250,7 @@ def runEvents (E : Env) : Nat → List String → List Acc → String
   | _, [], set =>
     match set with
     | a :: _ =>
-      let hs := a.path.reverse.map fun h => natToHex 16 h.toNat
+      let hs := a.path.reverse.map fun h => natToHex 16 h.1.toNat ++ ":" ++ natToHex 16 h.2.toNat
       s!"ACCEPT {set.length} " ++ " ".intercalate hs
     | [] => "REJECT end"
   | i, ev :: rest, set =>
